@@ -99,6 +99,10 @@ class Track(Harness):
             for runs in ([0, 1, 0], [1, 0, 1], []):
                 for op in ("iv_pileup", "iv_mask", "iv_mask_not"):
                     out.append(dict(genome="g2", a=runs, b=None, op=op))
+            # a genome whose size table also names a contig that its filter leaves out (sizes of ignored contigs are no part of the arrays)
+            for runs in ([0], [0, 1], [1, 1]):
+                for op in ("iv_mask_not", "iv_pileup", "iv_mask"):
+                    out.append(dict(genome="g2", a=runs, b=None, op=op, filtered=True))
             return out
         for g in ["g1", "g2", "g3", "g1b"]:
             for runs in RUNSETS[g]:
@@ -175,6 +179,9 @@ class Track(Harness):
             from bionumpy.datatypes import Interval
             names, n = list(genome), len(skel["a"])
             g = bnp.Genome.from_dict(dict(genome))
+            if skel.get("filtered"):
+                from bionumpy.genomic_data.genome_context import ignore_underscores
+                g = bnp.Genome.from_dict(dict(genome, chr1_alt=4), filter_function=ignore_underscores)
             gi = g.get_intervals(Interval([names[c] for c in skel["a"]], ctx.arr([x[f"as{i}"] for i in range(n)], "int64"),
                                           ctx.arr([x[f"ae{i}"] for i in range(n)], "int64")))
             R = gi.get_mask() if op in ("iv_mask", "iv_mask_not") else gi.get_pileup()
